@@ -264,3 +264,58 @@ Example C19_example_floor :
   floor_time (-1) (24 * hour) = - (24 * hour) /\
   floor_time (time_of_unix 45000 0) (24 * hour) = time_of_unix 0 0.
 Proof. vm_compute. repeat split; reflexivity. Qed.
+
+(* ---------------------------------------------------------------- the registry of ONE analysis
+   (strengthening round: lifecycle Configure -> Initialize -> Consume* -> Initialize again -> ...)
+
+   Initialize is modelled as the return to [init_sys cfg]: a new zero tick0, previousTick 0 and every
+   key of the registry deleted in place, so that the map Configure published in
+   facts[FactCommitsByTick] stays the registry.  Every analysis of the lifecycle is therefore a [run]
+   from [init_sys cfg], and besides C19_registry_listed (every commit of the analysis is listed) the
+   registry lists nothing else: whatever is listed under tick k is a commit this analysis consumed
+   with tick k - no commit of an earlier analysis survives Initialize. *)
+From Herc Require Import Plumbing.TicksLife.
+
+Theorem C19_registry_only_consumed : forall cfg ops s' outs, run (init_sys cfg) ops = (s', outs) ->
+  forall k h, In h (reg_get (commits (sh s')) k) -> exists c, In (c, k) (consumed ops outs) /\ c_hash c = h.
+Proof. exact registry_only_consumed. Qed.
+Print Assumptions C19_registry_only_consumed.
+
+(* the boolean oracle the replay applies to the registry the implementation PUBLISHED (the map
+   captured from facts[FactCommitsByTick] at Configure time) means exactly that, and the model passes it *)
+Theorem C19_only_consumed_oracle : forall r evs,
+  only_consumed r evs = true <->
+  (forall k, In k (map fst r) -> forall h, In h (reg_get r k) -> exists c, In (c, k) evs /\ c_hash c = h).
+Proof. exact only_consumed_spec. Qed.
+Print Assumptions C19_only_consumed_oracle.
+
+Theorem C19_registry_only_consumed_model : forall cfg ops s' outs, run (init_sys cfg) ops = (s', outs) ->
+  only_consumed (commits (sh s')) (consumed ops outs) = true.
+Proof. exact registry_only_consumed_oracle. Qed.
+Print Assumptions C19_registry_only_consumed_model.
+
+(* non-vacuity: a registry that still lists commit 9 of a previous analysis under tick 0 fails the
+   oracle, the registry of the analysis itself passes *)
+Example C19_example_stale_registry :
+  let ops := [OConsume 0 0 (mk 1 jan2020 0); OConsume 0 1 (mk 2 (jan2020 + day) 1)] in
+  let evs := consumed ops (snd (run (init_sys (CHours 24)) ops)) in
+  only_consumed [(0, [9; 1]); (1, [2])] evs = false /\
+  only_consumed (commits (sh (fst (run (init_sys (CHours 24)) ops)))) evs = true /\
+  commits (sh (fst (run (init_sys (CHours 24)) ops))) = [(0, [1]); (1, [2])].
+Proof. vm_compute. repeat split; reflexivity. Qed.
+
+(* what the replay of LARGE cases relies on (strengthening round).  The registry entry of one tick
+   with thousands of hashes is scanned without Coq's quadratic [rev]: the same function. *)
+Theorem C19_consume_fast : forall s b index c, consume_branch_fast s b index c = consume_branch s b index c.
+Proof. exact consume_branch_fast_eq. Qed.
+Print Assumptions C19_consume_fast.
+
+(* a branch history is judged in segments (shared prefixes of forked branches once): the per-history
+   oracles compose over concatenation *)
+Theorem C19_history_in_segments : forall t0 d first l1 l2 p,
+  nondecreasing p (ticks (l1 ++ l2)) = nondecreasing p (ticks l1) && nondecreasing (last (ticks l1) p) (ticks l2) /\
+  chain_verdicts t0 d p (l1 ++ l2) = chain_verdicts t0 d p l1 ++ chain_verdicts t0 d (last (ticks l1) p) l2 /\
+  alone t0 d (l1 ++ l2) = alone t0 d l1 && alone t0 d l2 /\
+  mono_times first (l1 ++ l2) = mono_times first l1 && nondecreasing (last (times l1) first) (times l2).
+Proof. exact history_in_segments. Qed.
+Print Assumptions C19_history_in_segments.
